@@ -125,7 +125,27 @@ def gen_doc(rng):
                 out.append(col())
         return out
 
+    def mixed():
+        """columns and groups side by side in one section (at least one of each), mj-raw anywhere"""
+        kinds = ["C", "G"] + [rng.choice(["C", "G", "R"]) for _ in range(rng.choice([0, 1, 2, 3]))]
+        rng.shuffle(kinds)
+        out = []
+        for k in kinds:
+            if k == "C":
+                c_, m_ = col()
+                out.append(("MC " + c_[3:], m_))
+            elif k == "R":
+                t, m_ = raw()
+                out.append(("MR %s" % t, m_))
+            else:
+                g = items(3)
+                out.append(("MG [%s]" % "; ".join(c_ for c_, _ in g), "<mj-group%s>%s</mj-group>" % (rng.choice(GROUP_ATTRS), "".join(m_ for _, m_ in g))))
+        tags.add("mixed-columns-and-groups")
+        return "Mixed [%s]" % "; ".join(c_ for c_, _ in out), "".join(m_ for _, m_ in out)
+
     def sec():
+        if rng.random() < 0.15:
+            return mixed()
         if rng.random() < 0.7:
             cs = items(4)
             tags.add("columns:%d" % len(cs))
